@@ -341,6 +341,11 @@
 #define SEXP_DEFAULT_QUANTUM 500
 #endif
 
+/* the nesting depth of a datum the reader accepts (it recurses on the C stack) */
+#ifndef SEXP_MAX_READ_DEPTH
+#define SEXP_MAX_READ_DEPTH 10000
+#endif
+
 #ifndef SEXP_MAX_ANALYZE_DEPTH
 #define SEXP_MAX_ANALYZE_DEPTH 8192
 #endif
